@@ -116,5 +116,66 @@ def replay(o, scratch):
             return 1 if bad else 0
         finally:
             im.close()
+    if kind == "co":
+        return replay_co(o, scratch)
     print("unknown replay kind", kind)
     return 2
+
+
+def replay_co(o, scratch):
+    """C16: run the recorded schedule again; a request that fails, a query outside its two-sided bound (re-derived from the
+    atomic probes recorded between the steps) or a disagreement with the coroutine model on the schedule is a failure"""
+    from . import extra, model
+    lines = o["lines"]
+    im = Impl(scratch)
+    try:
+        res = [im.exec(l) for l in lines]
+    finally:
+        im.close()
+    ans = [a[0] for a in res]
+    reqs, bad = {}, False
+    for i, l in enumerate(lines):
+        w = l.split(" ")
+        if w[:2] == ["co", "new"]:
+            cid, kind, args = int(w[2]), w[3], w[4:]
+            arg = None
+            if kind in extra.WE_QUERIES:
+                arg = {"w": int(args[0]), "ps": args[1]}
+                if kind == "mostlinked":
+                    arg.update(k=int(args[2]), d=args[3])
+                if kind == "pagelinks":
+                    arg.update(fl=" ".join(args[2:5]))
+            elif kind in extra.NET_QUERIES:
+                arg = {"o": args[0], "a": args[1]}
+            reqs[cid] = {"kind": kind, "arg": arg, "new": i, "end": None, "answer": None}
+        elif w[:2] == ["co", "step"]:
+            st = reqs.get(int(w[2]))
+            if st is None or st["answer"] is not None:
+                continue
+            if ans[i].startswith("done "):
+                st["answer"], st["end"] = ans[i][5:], i
+            elif ans[i] != "yield":
+                st["answer"], st["end"] = ans[i], i
+                print("FAILS: request %d (%s) failed under the schedule: %s" % (int(w[2]), st["kind"], ans[i])); bad = True
+    pre = [a for l, a in zip(lines, ans) if l == "? prefixiter"]
+    static_we = len(pre) >= 2 and pre[0] == pre[-1]
+    for cid, st in sorted(reqs.items()):
+        if st["arg"] is None or st["answer"] is None or not st["answer"].startswith("ok"):
+            continue
+        pl = extra._probe_line(st["kind"], st["arg"])
+        probes = [a for i, (l, a) in enumerate(zip(lines, ans)) if l == pl and st["new"] < i < st["end"]]
+        hits, known = extra._judge_query(st["kind"], st["arg"], st["answer"], probes, static_we)
+        for reason, detail in hits:
+            print("FAILS: request %d: %s %s" % (cid, reason, detail)); bad = True
+        for reason, detail in known:
+            print("phantom (known mechanism if the model reproduces it): request %d: %s %s" % (cid, reason, detail))
+    try:
+        mres = model.run_lines(lines)
+        mism = [(l, a[0], b[0]) for l, a, b in zip(lines, res, mres) if a != b]
+        if mism:
+            print("FAILS: implementation and coroutine model disagree on '%s': %s vs %s" % (mism[0][0][:80], mism[0][1][:200], mism[0][2][:200]))
+            bad = True
+    except Exception as e:  # noqa
+        print("  model driver not available:", e)
+    print("FAILS" if bad else "PASSES (no request fails, every query within its bounds or a phantom the model reproduces, model agrees)")
+    return 1 if bad else 0
